@@ -110,7 +110,7 @@ def stage_walk(ctx, st):
         cfg = tier_val(alt["cfg"], ctx.tier)
         wd = vlib.scratch(f"{ctx.prop}-{name}-{alt['name']}")
         vlib.stage_specs(wd)
-        r = tlc_or_die(st["module"], cfg, wd, workers=1, timeout=tier_val(st.get("tlc_timeout", 900), ctx.tier), what="exhaustive + edge dump")
+        r = tlc_or_die(st["module"], cfg, wd, workers=st.get("dump_workers", 4), timeout=tier_val(st.get("tlc_timeout", 900), ctx.tier), what="exhaustive + edge dump")
         graph = os.path.join(wd, "graph.json")
         gi = vlib.build_graph(r["out"], st["module"], graph)
         os.unlink(r["out"])
